@@ -153,13 +153,13 @@ theorem create_some {s s' : St} {u k i a b el rc : Nat} {soft : Bool} (h : creat
   split at h; · cases h
   rename_i hel
   split at h; · cases h
-  have hout : outSide k ⟨0, l, sh, m, s.now, el, soft, rc, if k = 4 then 100 * b else if k = 5 then b else 0⟩ = (0, 0, 0) := by
+  have hout : outSide k ⟨0, l, sh, m, s.now, el, soft && !((k = 4 || k = 5) && b = 0), rc, if k = 4 then 100 * b else if k = 5 then b else 0⟩ = (0, 0, 0) := by
     have := escrowOf_out he
     simpa [outSide] using this
-  refine ⟨hn, ⟨0, l, sh, m, s.now, el, soft, rc, if k = 4 then 100 * b else if k = 5 then b else 0⟩, rfl, rfl, hout, ?_, ?_, ?_, ?_,
+  refine ⟨hn, ⟨0, l, sh, m, s.now, el, soft && !((k = 4 || k = 5) && b = 0), rc, if k = 4 then 100 * b else if k = 5 then b else 0⟩, rfl, rfl, hout, ?_, ?_, ?_, ?_,
     l, sh, m, he, by omega, rfl, rfl, rfl, ?_⟩
   · by_cases hk : k = 4
-    · subst hk; simp at h; subst h; rfl
+    · subst hk; simp at h; subst h; simp [setAct, setUser]
     · simp [hk] at h; subst h; simp [hk, setAct, setUser]
   · by_cases hk : k = 4
     · subst hk; simp at h; subst h; exact ⟨rfl, rfl, rfl, rfl, rfl, rfl⟩
